@@ -6,12 +6,14 @@ PID = "C12"
 META = {
     "level": "exploration",
     "text": "A value universe (one account per supported imported-password format as primary and as unix credential, generated "
-            "credentials, sessions in every state, OAuth2 sessions, API tokens, ssh keys, mail, dates, OAuth2 client maps, a recycled "
+            "credentials, sessions in every state, OAuth2 sessions, API tokens, ssh keys, mail, dates, OAuth2 client maps, keyed "
+            "multi-values with shared outer keys (3 application passwords for one application + 1 for another, 3 sessions of one "
+            "credential, 3 API tokens of one issuer, 2 OAuth2 sessions of one parent/client, 2 ssh key tags), a recycled "
             "entry, plus every built-in entry of the server: schema, ACPs, keys, certificates) is taken through every chain of up "
             "to 2 (quick) / 3 (thorough) storage transitions - reload from DB rows, backup/restore plain and gzip, replication refresh, "
             "incremental replication - on real servers using the real encoders; the chains are enumerated by TLC from the KStoreVal "
             "model and the observation of every stored value (canonical DB form, proto form, password verdicts on a cleartext probe "
-            "set) after each step is judged by the TLA+ invariant 'Observe is unchanged'. Level is exploration because encoder "
+            "set, and for keyed multi-values the set of (outer key, inner identity) pairs) after each step is judged by the TLA+ invariant 'Observe is unchanged'. Level is exploration because encoder "
             "fidelity is exercised on a finite universe, not modelled.",
     "note": "trusted: the Observe projection (inlib/store.rs observe_vs: canonical JSON of to_db_valueset_v2, proto strings, "
             "Password::verify verdicts memoised per password material), TLC; non-replicated attributes are only required to "
@@ -33,6 +35,14 @@ def diff_sig(pre, post, eid, trans):
     a, b = pre[eid], post[eid]
     if a["live"] != b["live"]:
         sigs.append(f"liveness-changed trans={trans} before={a['live']} after={b['live']}")
+    # keyed multi-values: which (outer key, inner identity) pairs were lost / appeared
+    for at in sorted(set(a.get("p", {})) | set(b.get("p", {}))):
+        x = {tuple(q) for q in a.get("p", {}).get(at, [])}
+        y = {tuple(q) for q in b.get("p", {}).get(at, [])}
+        if x != y:
+            lost, new = sorted(x - y), sorted(y - x)
+            shared = sorted({k for k, _ in lost} & {k for k, _ in y})
+            sigs.append(f"keyed-members-changed attr={at} lost={len(lost)} appeared={len(new)} lost-under-surviving-outer-key={int(bool(shared))}")
     parts = ("r", "n") if trans == "reload" else ("r",)
     for part in parts:
         for at in sorted(set(a[part]) | set(b[part])):
@@ -127,6 +137,17 @@ def run(tier, replay):
         "l2_drift": len(tv["drift"]),
         "exhaustive": False,
     }
+    cov_pairs = {}
+    for eid, e in (recs[0]["st"] if recs else {}).items():
+        for at, ps in e.get("p", {}).items():
+            outer = {}
+            for k, i in ps:
+                outer.setdefault(k, set()).add(i)
+            cov_pairs[at] = {"pairs": max(len(ps), cov_pairs.get(at, {}).get("pairs", 0)),
+                             "max_members_under_one_outer_key": max([len(v) for v in outer.values()] + [cov_pairs.get(at, {}).get("max_members_under_one_outer_key", 0)])}
+    R.coverage["keyed_multivalue_shapes"] = cov_pairs
+    if not replay and not any(v["max_members_under_one_outer_key"] >= 2 for k, v in cov_pairs.items() if k == "application_password"):
+        lib.tool_error("universe has no application passwords sharing an application (vacuous for keyed multi-values)")
     R.assumptions = ["Observe (canonical DB form + proto strings + password verdicts on 4 probe cleartexts) is what 'equivalent value "
                      "with identical behaviour' means; verdicts are memoised per password material",
                      "values outside the universe (webauthn/passkey credentials, images, TOTP secrets) are not exercised",
